@@ -219,6 +219,7 @@ pub fn run(ctx: &Ctx) -> Report {
         "same_instant_seen_from_two_zones_compares_equal",
         "timestamp_constructor_offset_full_i32_range",
         "total_nanoseconds_constructors",
+        "nanosecond_count_at_a_power_of_two",
         "search_entry_valid",
         "search_entry_gap",
         "search_on_zone_with_leap_seconds",
@@ -290,10 +291,27 @@ pub fn run(ctx: &Ctx) -> Report {
                 1 => rng.pick(&[cal::min_unix(), cal::max_unix(), i64::MIN, i64::MAX, 0]).saturating_add(rng.range(-3, 3) * (rng.below(2) as i64)),
                 _ => rng.i64_log(),
             };
-            let ns = rng.below(1_000_000_000) as u32;
+            let mut ns = rng.below(1_000_000_000) as u32;
+            let mut u = u;
+            if rng.chance(1, 5) {
+                // the instant as a nanosecond count sits on a power of two (+-1): where a narrower intermediate of the
+                // recombination unix_time * 1e9 + nanoseconds overflows although the product alone still fits
+                let k = rng.range(61, 66) as u32;
+                let t = (if rng.chance(1, 2) { 1i128 } else { -1i128 } << k) + rng.range(-2, 2) as i128 + if rng.chance(1, 3) { rng.range(-999_999_999, 999_999_999) as i128 } else { 0 };
+                let (q, r) = (t.div_euclid(1_000_000_000), t.rem_euclid(1_000_000_000));
+                u = q as i64;
+                ns = r as u32;
+                l.class("nanosecond_count_at_a_power_of_two");
+            }
             let sh = u as i128 + off as i128;
             let ok = sh >= cal::min_unix() as i128 && sh <= cal::max_unix() as i128;
             let r = facade::dt_from_timespec_and_local(u, ns, ltt);
+            if let Ok(d) = &r {
+                let want = u as i128 * 1_000_000_000 + ns as i128;
+                if d.total_nanoseconds() != want {
+                    l.violation("zoned date-time: total_nanoseconds() is not unix_time * 1e9 + nanoseconds", format!("DateTime::from_timespec_and_local({}, {}, offset {}).total_nanoseconds()", u, ns, off), format!("{}", want), format!("{}", d.total_nanoseconds()));
+                }
+            }
             n += 1;
             match (&r, ok) {
                 (Ok(d), true) => {
